@@ -11,6 +11,7 @@ from mc.engine.seams import Canon
 import numpy as np
 
 import ECAgent.Core as Core
+import ECAgent.Environments as Envs
 
 
 class X(Core.Component):
@@ -39,7 +40,7 @@ META = {
                                      'len/contains/getitem/get_class_component(strict)/has_class_component/tag on every '
                                      'class; instance without tag, with tag 7 and with tag 0; instance-level '
                                      'add_component X on a fresh instance'},
-    'bounds': {'quick': 'full alphabet depth 4; classes A, A1, B with type X only: fixpoint', 'thorough': 'full alphabet depth 5; same fixpoint leg'},
+    'bounds': {'quick': 'full alphabet depth 3; classes A, A1, B with type X only: fixpoint', 'thorough': 'full alphabet depth 4; same fixpoint leg'},
     'assumptions': ['canonical state = per-class (store order and identity, default tag, id) read from the metaclass '
                     'fields; environments are instantiated through their own constructor (no explicit tag possible)'],
 }
@@ -80,14 +81,18 @@ class Harness:
         class E(Core.Environment):
             pass
 
-        w.cls = {'Agent': Core.Agent, 'A': A, 'A1': A1, 'B': B, 'Environment': Core.Environment, 'E': E}
+        w.cls = {'Agent': Core.Agent, 'A': A, 'A1': A1, 'B': B, 'Environment': Core.Environment, 'E': E,
+                 'SpaceWorld': Envs.SpaceWorld}
+        w.shared = {T: TYPES[T](A, w.model) for T in ('X', 'Y')}      # ONE object that may be attached to several classes
         w.comp = {(c, T): TYPES[T](w.cls[c], w.model) for c in CLASSES for T in ('X', 'Y')}
-        w.ref = {c: {'comps': [], 'tag': 0} for c in CLASSES}
+        w.ref = {c: {'comps': [], 'tag': 0} for c in w.cls}
         w.last = None
         return w
 
     def ops(self, w):
         ops = list(self._ops)
+        if self.subclassing:
+            ops += [['tag', 'SpaceWorld', 3], ['tag', 'SpaceWorld', 0], ['attach_shared', 'A', 'X'], ['attach_shared', 'B', 'X']]
         for parent in (('Agent', 'A', 'Environment') if self.subclassing else ()):
             n = 'N_' + parent
             if n in w.cls:
@@ -115,6 +120,17 @@ class Harness:
             w.last = ('subclass', c)
             return
         cls, ref = w.cls[c], w.ref[c]
+        if kind == 'attach_shared':
+            T = op[2]
+            if T in ref['comps']:
+                self._rejected(w, lambda: cls.add_class_component(w.shared[T]), ValueError,
+                               f'duplicate attach of {T} to {c}')
+            else:
+                cls.add_class_component(w.shared[T])
+                ref['comps'].append(T)
+                ref.setdefault('shared', set()).add(T)
+            w.last = ('attach_shared',)
+            return
         if kind == 'attach':
             T = op[2]
             if T in ref['comps']:
@@ -130,6 +146,7 @@ class Harness:
             if T in ref['comps']:
                 cls.remove_class_component(TYPES[T])
                 ref['comps'].remove(T)
+                ref.get('shared', set()).discard(T)
                 w.last = ('detach', 'ok')
             else:
                 self._rejected(w, lambda: cls.remove_class_component(TYPES[T]), Core.ComponentNotFoundError,
@@ -162,7 +179,7 @@ class Harness:
                 if (TYPES[T] in cls) != has or cls.has_class_component(TYPES[T]) != has:
                     raise Violation(f'{what}: {T} in class', expected=has, observed=TYPES[T] in cls)
                 got = cls[TYPES[T]]
-                want = w.comp[(c, T)] if has else None
+                want = (w.shared[T] if T in ref.get('shared', ()) else w.comp[(c, T)]) if has else None
                 if got is not want:
                     raise Violation(f'{what}: class[{T}] answers the wrong component',
                                     expected=f'{c}.{T}' if has else None, observed=self._cname(w, got))
@@ -186,7 +203,10 @@ class Harness:
                                 observed=[t.__name__ for t in cls.components])
             # ---- instances ------------------------------------------------------------------------------
             is_env = issubclass(cls, Core.Environment)
-            inst = cls(w.model) if is_env else cls('i', w.model)
+            if c == 'SpaceWorld':
+                inst = cls(w.model, 3, 2)
+            else:
+                inst = cls(w.model) if is_env else cls('i', w.model)
             if inst.tag != ref['tag']:
                 raise Violation(f'{what}: an instance created without a tag got tag {inst.tag}, its class default is '
                                 f'{ref["tag"]}', expected=ref['tag'], observed=inst.tag)
@@ -208,7 +228,7 @@ class Harness:
                 raise Violation(f'{what}: an instance-level component became visible on the class')
             if inst[Z] is not ic or len(inst.components) != 2:
                 raise Violation(f'{what}: instance components disturbed by the class store')
-            if 'X' in ref['comps'] and inst[X] is w.comp[(c, 'X')]:
+            if 'X' in ref['comps'] and (c, 'X') in w.comp and inst[X] is w.comp[(c, 'X')]:
                 raise Violation(f'{what}: instance lookup answers the class component')
 
     def _cname(self, w, comp):
@@ -221,7 +241,11 @@ class Harness:
         # generic canon over the per-class stores: it tracks which classes hold the very same store object and
         # whether a store IS one of the library's module-level containers (a shared store looks identical to two
         # separate ones until the next attach)
-        return self.cn([(c, w.cls[c].components, w.cls[c].tag, w.cls[c].id) for c in w.cls])
+        # the harness's own component objects come first, in a fixed order: operations refer to them by identity, so
+        # they must keep stable names in the canonical form (two states that differ in WHICH object sits in a store
+        # are different states)
+        pool = [w.shared[T] for T in sorted(w.shared)] + [w.comp[k] for k in sorted(w.comp)]
+        return self.cn(pool, [(c, w.cls[c].components, w.cls[c].tag, w.cls[c].id) for c in w.cls])
 
     def refstate(self, w):
         return tuple((c, tuple(w.ref[c]['comps']), w.ref[c]['tag']) for c in w.cls)
@@ -231,7 +255,7 @@ class Harness:
 
 
 def run(ctx):
-    depth = 4 if ctx.tier == 'quick' else 5
+    depth = 3 if ctx.tier == 'quick' else 4
     h = Harness()
     r = hbfs.explore(ctx, h, 'hierarchy', max_depth=depth, procs=ctx.procs)
     ctx.leg('hierarchy', **r)
